@@ -1237,6 +1237,7 @@ def main(prop, tier, seed):
             builder.validate(run, prop == "C04", tier)
         if prop == "C19" and not run.machinery_errors:
             funcfl_negative_pair(run)
+            row_at_zero(run)
         if prop == "C02" and not run.machinery_errors:
             dlpoly_dynamic_range(run)
             dlpoly_large_and_grid_points(run)
@@ -1496,6 +1497,29 @@ def dlpoly_dynamic_range(run):
             except Exception as e:
                 run.violation(dict(engine="layout", target="DLPOLY", clause="dynamic-range", route=route),
                               "DLPOLY via %s: [dynamic-range] potential %s: %s: %s" % (route, name, type(e).__name__, e), dict(name=name, route=route))
+
+
+def row_at_zero(run):
+    """C19: the GULP table and the Excel sheet start at r = 0.  A form that is regular there, written with an explicit '>=0', has its
+    closed-form value in that row (A exp(0) = A for Born-Mayer)"""
+    import io, math
+    forms_ = [("as.bornmayer 1000.0 0.5", 1000.0), ("as.morse 1.5 2.0 0.5", 0.5 * (math.exp(3.0) ** 2 - 2 * math.exp(3.0))), ("as.exponential 2.0 1", 0.0),
+              ("as.sqrt 3.0", 0.0), ("as.polynomial 4 1", 4.0), ("as.exp_spline 0.1 0.2 0 0 0 0 2.0", math.exp(0.1) + 2.0)]
+    for defn, want in forms_:
+        for target in ("GULP", "excel"):
+            run.evaluations += 1
+            run.distinct("row-zero:%s:%s" % (defn, target))
+            out = io.BytesIO() if target == "excel" else io.StringIO()
+            try:
+                Configuration().read(io.StringIO("[Tabulation]\ntarget : %s\ncutoff : 2.0\nnr : 5\n\n[Pair]\nAa-Bq1 : >=0 %s\n" % (target, defn))).write(out)
+                if target == "GULP":
+                    got = float(formats.parse_gulp(out.getvalue())[0]["rows"][0][0])
+                else:
+                    got = float(formats.parse_xlsx(out.getvalue())["Pair"]["cols"]["Aa-Bq1"][0])
+                if abs(got - want) > 1e-9 * max(1.0, abs(want)):
+                    run.violation(dict(engine="layout", target=target, clause="row-zero"), "%s via ini: [row-zero] '>=0 %s': the row at r = 0 holds %r, the form's value there is %r" % (target, defn, got, want), dict(defn=defn))
+            except Exception as e:
+                run.violation(dict(engine="layout", target=target, clause="row-zero"), "%s via ini: [row-zero] '>=0 %s' (regular at r = 0) cannot be tabulated: %s: %s" % (target, defn, type(e).__name__, e), dict(defn=defn))
 
 
 def dlpoly_large_and_grid_points(run):
